@@ -12,6 +12,7 @@
 import Ladybug.Proofs.C04Lemmas
 import Ladybug.Proofs.C04Listings
 import Ladybug.Proofs.C04Order
+import Ladybug.Proofs.C04Obj
 
 open Cal
 
@@ -267,6 +268,166 @@ example : ∀ mo ∈ (annual true 4).monthsInt, (annual true 4).wholeDayIn mo :=
     revert k
     decide
   exact key ⟨mo, by omega⟩ h.1
+
+/-! ### Round 3: histories of operations on one object / several objects in one process
+
+`Obj` (Model/APObj.lean) is the object with its two lazily filled private slots, `Obj.step` is the
+code (reads answer from the slots once they are filled), `observe ap op` is the specification: a
+pure function of the public fields.  The class has no setter, so the public state a user
+establishes is the constructor's result. -/
+
+/-- **Every history refines the fresh object.**  After any sequence of operations on one period
+    (reads in any order and repetition, refused assignments, refused calls, edits of returned
+    values) the next operation answers exactly what it answers on a fresh object with the same
+    public fields, which is the specification `observe`; the public fields never change. -/
+theorem C04_history_refines_fresh (ap : AP) (ops : List Op) (op : Op) :
+    (((fresh ap).run ops).step op).2 = ((fresh ap).step op).2 ∧
+    (((fresh ap).run ops).step op).2 = observe ap op ∧ ((fresh ap).run ops).ap = ap := by
+  obtain ⟨hi, ha⟩ := run_spec (fresh ap) (fresh_inv ap) ops
+  have h1 := (step_spec _ hi op).2.2
+  have h2 := (step_spec _ (fresh_inv ap) op).2.2
+  rw [ha] at h1
+  exact ⟨h1.trans h2.symm, h1, ha⟩
+
+/-- The whole output sequence of a history is the specification applied to each operation. -/
+theorem C04_history_outputs (ap : AP) (ops : List Op) : (fresh ap).outs ops = ops.map (observe ap) :=
+  outs_spec (fresh ap) (fresh_inv ap) ops
+
+/-- **A refused operation changes no observation.**  After an operation the code refuses
+    (assignment to an attribute, `is_time_included(None)` – which fills the slots before it fails –,
+    `is_possible_hour('x')`) every later history gives the outputs it would have given without it,
+    and the public fields are as before. -/
+theorem C04_refused_preserves (o : Obj) (h : o.Inv) (r : Op) (_hr : r.isRefused = true) (ops : List Op) :
+    ((o.step r).1).outs ops = o.outs ops ∧ ((o.step r).1).ap = o.ap := by
+  obtain ⟨h1, h2, _⟩ := step_spec o h r
+  exact ⟨by rw [outs_spec _ h1, outs_spec _ h, h2], h2⟩
+
+/-- **Reads are pure / order independent**: an operation `a` performed first does not change the
+    answer of `b`; in particular asking the same question twice gives the same answer. -/
+theorem C04_read_pure (o : Obj) (h : o.Inv) (a b : Op) :
+    ((o.step a).1.step b).2 = (o.step b).2 ∧ ((o.step a).1.step a).2 = (o.step a).2 := by
+  obtain ⟨h1, h2, h3⟩ := step_spec o h a
+  exact ⟨by rw [(step_spec _ h1 b).2.2, (step_spec o h b).2.2, h2],
+         by rw [(step_spec _ h1 a).2.2, h3, h2]⟩
+
+/-- **After any history the object still enumerates exactly the described steps**: `moys` answers a
+    list whose members are the minutes satisfying `Pred`, in strictly chronological order from the
+    start moment, `len` answers its length (fast or slow path) and `is_time_included` decides `Pred`. -/
+theorem C04_history_enumeration (ap : AP) (hwf : ap.WF) (ops : List Op) :
+    ∃ l, (((fresh ap).run ops).step .moys).2 = .nats l ∧ (∀ m, m ∈ l ↔ ap.Pred m) ∧
+      (l.map ap.chronoKey).Pairwise (· < ·) ∧
+      (((fresh ap).run ops).step .len).2 = .nat l.length ∧
+      ∀ m, (((fresh ap).run ops).step (.included m)).2 = .bool (decide (ap.Pred m)) := by
+  refine ⟨ap.moys, (C04_history_refines_fresh ap ops .moys).2.1, C04_mem_moys ap hwf,
+    C04_moys_chrono ap hwf, ?_, ?_⟩
+  · rw [(C04_history_refines_fresh ap ops .len).2.1]; simp only [observe, C04_len ap hwf]
+  · intro m
+    rw [(C04_history_refines_fresh ap ops (.included m)).2.1]
+    simp only [observe, includesMoy]
+    congr 1
+    rw [Bool.eq_iff_iff, List.contains_iff_mem, decide_eq_true_iff]
+    exact C04_mem_moys ap hwf m
+
+/-- **Objects do not influence each other** (no class-level or module-level state in the model of the
+    code): whatever happens in the process – an operation on some object, a refused or accepted
+    constructor call, a copy through `duplicate` / text / dictionary / `from_start_end_datetime`, an
+    equality test – every object keeps its slot invariant and every existing object keeps its
+    position and its public fields. -/
+theorem C04_world_frame (w : World) (hw : World.Inv w) (wop : WOp) :
+    World.Inv (w.step wop).1 ∧
+    ∀ (j : Nat) (o : Obj), w[j]? = some o → ∃ o' : Obj, (w.step wop).1[j]? = some o' ∧ o'.ap = o.ap := by
+  have hpush : ∀ r, World.Inv (World.push w r).1 ∧
+      ∀ (j : Nat) (o : Obj), w[j]? = some o → ∃ o' : Obj, (World.push w r).1[j]? = some o' ∧ o'.ap = o.ap := by
+    intro r
+    refine ⟨push_inv w hw r, fun j o hj => ⟨o, ?_, rfl⟩⟩
+    have hlt : j < w.length := (List.getElem?_eq_some_iff.1 hj).1
+    rw [push_get w r j hlt]; exact hj
+  have hsame : World.Inv w ∧ ∀ (j : Nat) (o : Obj), w[j]? = some o → ∃ o' : Obj, w[j]? = some o' ∧ o'.ap = o.ap :=
+    ⟨hw, fun j o hj => ⟨o, hj, rfl⟩⟩
+  cases wop with
+  | on i op =>
+    simp only [World.step]
+    cases hi : w[i]? with
+    | none => exact hsame
+    | some oi =>
+      have hoi : oi.Inv := hw oi (List.mem_of_getElem? hi)
+      obtain ⟨s1, s2, _⟩ := step_spec oi hoi op
+      refine ⟨?_, ?_⟩
+      · intro o ho
+        rcases List.mem_or_eq_of_mem_set ho with h | h
+        · exact hw o h
+        · rw [h]; exact s1
+      · intro j o hj
+        by_cases hij : i = j
+        · subst hij
+          have hlt : i < w.length := (List.getElem?_eq_some_iff.1 hj).1
+          refine ⟨(oi.step op).1, by simp [hlt], ?_⟩
+          rw [s2]; rw [hi] at hj; cases hj; rfl
+        · exact ⟨o, by rw [List.getElem?_set_ne hij]; exact hj, rfl⟩
+  | new a b c d e f g l => exact hpush _
+  | dup i =>
+    simp only [World.step]
+    cases w[i]? with
+    | none => exact hsame
+    | some oi => exact hpush _
+  | viaString i =>
+    simp only [World.step]
+    cases w[i]? with
+    | none => exact hsame
+    | some oi => exact hpush _
+  | viaDict i =>
+    simp only [World.step]
+    cases w[i]? with
+    | none => exact hsame
+    | some oi => exact hpush _
+  | viaStartEnd i =>
+    simp only [World.step]
+    cases w[i]? with
+    | none => exact hsame
+    | some oi => exact hpush _
+  | eq i j =>
+    simp only [World.step]
+    cases w[i]? <;> cases w[j]? <;> exact hsame
+
+/-- **Whole process histories**: after any sequence of world operations every object that existed
+    before is still at its position with its public fields, and all slots respect the invariant – so
+    (`C04_world_on`) every later answer of every object is the specification of its own fields. -/
+theorem C04_world_history (w : World) (hw : World.Inv w) (wops : List WOp) :
+    World.Inv (w.run wops) ∧
+    ∀ (j : Nat) (o : Obj), w[j]? = some o → ∃ o' : Obj, (w.run wops)[j]? = some o' ∧ o'.ap = o.ap := by
+  induction wops generalizing w with
+  | nil => exact ⟨hw, fun j o hj => ⟨o, hj, rfl⟩⟩
+  | cons wop wops ih =>
+    obtain ⟨h1, h2⟩ := C04_world_frame w hw wop
+    obtain ⟨h3, h4⟩ := ih _ h1
+    refine ⟨h3, fun j o hj => ?_⟩
+    obtain ⟨o1, ho1, hap1⟩ := h2 j o hj
+    obtain ⟨o2, ho2, hap2⟩ := h4 j o1 ho1
+    exact ⟨o2, ho2, hap2.trans hap1⟩
+
+/-- In a process with several periods, an operation on object `i` answers the specification of
+    that object's own public fields, whatever happened before to it or to the others. -/
+theorem C04_world_on (w : World) (hw : World.Inv w) (i : Nat) (o : Obj) (hi : w[i]? = some o) (op : Op) :
+    (w.step (.on i op)).2 = observe o.ap op := by
+  simp only [World.step, hi]
+  exact (step_spec o (hw o (List.mem_of_getElem? hi)) op).2.2
+
+/-- Copies read back: duplicate, the dictionary form and `from_start_end_datetime` of a well-formed
+    period construct an equal period (the text form: `C04_repr_roundtrip_partial`). -/
+theorem C04_copies_equal (ap : AP) (hwf : ap.WF) :
+    ap.duplicate = .ok ap ∧ fromDict ap.toDict = .ok ap ∧ viaStartEnd ap = .ok ap :=
+  ⟨C04_mk_accepts ap hwf, C04_dict_roundtrip ap hwf, C04_mk_accepts ap hwf⟩
+
+-- non-vacuity: a wrapping period, membership test first, then the enumeration (order of seeded C04-5)
+example : ((fresh ⟨12, 30, 0, 1, 2, 23, 1, false⟩).outs [.included 0, .moys, .len]) =
+    [.bool true, .nats (⟨12, 30, 0, 1, 2, 23, 1, false⟩ : AP).moys, .nat 96] := by decide +kernel
+-- non-vacuity (world): leap object read first, then the same dates non-leap in the same process
+example : World.outs [fresh ⟨2, 28, 0, 3, 1, 23, 1, true⟩]
+    [.on 0 .doys, .new (some 2) (some 28) (some 0) (some 3) (some 1) (some 23) (some 1) false, .on 1 .doys,
+     .new (some 2) (some 30) none none none none none false, .on 0 .doys] =
+    [.nats [59, 60, 61], .made (.ok ⟨2, 28, 0, 3, 1, 23, 1, false⟩), .nats [59, 60], .made (.error .value),
+     .nats [59, 60, 61]] := by decide +kernel
+example : Op.isRefused .setAttr = true ∧ (⟨1, 1, 9, 1, 1, 10, 2, false⟩ : AP).WF := by decide
 
 /- Character-level `__repr__` / `from_string` round trip: NOT proved and not provable by a finite
    check here.  `String.replace`, `String.splitOn` and `String.toInt?` (used by the frozen
